@@ -34,6 +34,14 @@ class RegBench:
             if as_int != il:
                 chk.violation(f"require_user_verification={p2.require_uv} / require_user_presence={p2.require_up} give another outcome than the booleans ({label}): {as_int[:50]} instead of {il[:50]}",
                               f"policy-as-int reg {label.split('+')[0].split('/')[0]}", dict(rp, policy_as_int={"require_user_verification": p2.require_uv, "require_user_presence": p2.require_up}, outcome_as_int=as_int[:400]))
+        eq = impl.equivalent_reg_calls(pol, reg)
+        self._eq_n = getattr(self, "_eq_n", 0) + 1
+        for j in ((self._eq_n * 2) % len(eq), (self._eq_n * 2 + 1) % len(eq)):
+            nm, thunk = eq[j]
+            o2 = thunk()
+            chk.evals += 1
+            if o2 != il and not (o2.startswith("ERR") and il.startswith("ERR") and reg.typ != "public-key"):
+                chk.violation(f"the same call with {nm} gives another outcome ({label}): {o2[:50]} instead of {il[:50]}", f"argument-shape reg {nm} {label.split('+')[0].split('/')[0]}", dict(rp, argument_shape=nm, outcome=o2[:300]))
         # policy switches that have their documented defaults (presence required, verification not required) may as well be left out - each one alone, or both
         defaults = {"require_user_presence": True, "require_user_verification": False}
         at_default = [k for k, dv in defaults.items() if (pol.require_up if k == "require_user_presence" else pol.require_uv) is dv]
